@@ -218,6 +218,7 @@ func runC14(p *Prog, r *Report) {
 	signatureAssertRule(p, r, "C14.R8")
 	localConfigFunctionsOnlyRule(p, r, "C14.R9")
 	declaredSignatureRule(p, r, "C14.R10")
+	localConfigNameRule(p, r, "C14.R11")
 }
 
 // guardSpec: a validation that must exist in method.Parse as `if COND { return nil, <error> }`.
